@@ -36,6 +36,19 @@ def handle : List Sexp → Option String
       match decodeOne cfg t b with
       | .ok (v, rest) => some s!"ok {valStr v} {hexOut rest}"
       | .error e => some s!"err {errStr e}"
+  | [.atom "X690DER", t, v] => do
+      let t ← tyOf t
+      let v ← valOf v
+      match X690.der t v with
+      | some b => some s!"ok {hexOut b}"
+      | none => some "err refused"
+  | .atom "VARIANT" :: t :: v :: script => do
+      let t ← tyOf t
+      let v ← valOf v
+      let sc ← script.mapM fun (x : Sexp) => match x with | .atom a => a.toNat? | _ => none
+      match X690.berVariant t v sc with
+      | some b => some s!"ok {hexOut b}"
+      | none => some "err refused"
   | [.atom "TAGS", t] => do
       let t ← tyOf t
       some ("ok" ++ String.join (t.tags.map fun x => " " ++ tagStr x))
